@@ -8,8 +8,52 @@ TRUST = ("TLC 1.8 and the JVM; the Python harness only executes calls and record
          "evaluation of the specification's predicates on recorded steps; cloudsync imported from /repo with the "
          "debug_sig logging helper shimmed; ")
 
+SYS = 'Trace_Sys.tla validates every recorded run of the REAL engine (CloudSync, SyncState, SyncManager, EventManagers, MockProviders, storage) stepped under a virtual clock along TLC-generated behaviours (Gen_Sys.tla: every user history of n operations x schedule tokens); each property clause is evaluated by TLC at the step it talks about. '
+
+TRUST_SYS = TRUST + ("MockProvider flavours are the environment (bound to the provider contract by C16); users act through a second provider "
+                     "instance on the same in-memory account; virtual clock; bounded universes (3-4 names, depth 2, <= 2-5 operations per "
+                     "history: exhaustive for the small bounds, TLC -simulate beyond); failures of the unchanged engine in hazard-tagged strata "
+                     "are listed findings (known_findings.json), clean strata are strict.")
+
 CHECKS = {
- "C09": dict(engine="storage", design_ref="DESIGN.md 3.3, 6 (C09)",
+ "C01": dict(ready=False, engine="sys", design_ref="DESIGN.md 3.6-3.8, 6 (C01), 13",
+   text=SYS + "C01: Converged at every quiet report, ReachesQuiet within the step bound, NoEscape, StaysQuiet; families: all two-sided histories "
+        "(conflicting and not) of 2 operations exhaustively, 3-5 by slices/simulation, 2-4 flavours. Design level: SysMC.tla (abstract engine constrained by the contract guards).",
+   note=TRUST_SYS, technique="TLA+ spec (Sys/Tree/Gen_Sys/Trace_Sys) + TLC: generated behaviours replayed on the real engine, TLC trace validation of convergence clauses"),
+ "C02": dict(ready=True, engine="sys", design_ref="DESIGN.md 3.7, 6 (C02), 13",
+   text=SYS + "C02: ghost ledger (written / killed / dropped versions) in Sys.tla; LastCopy at every engine delete/upload, NoLoss and NoInventedContent at "
+        "every quiet report, unreadable (corrupt) copies do not count as copies; conflict-heavy universes, resolver answers that keep data, corrupt-read placements. "
+        "SysMC.tla shows the guards make NoLoss an invariant for ANY engine.",
+   note=TRUST_SYS, technique="TLA+ spec with ghost ledger + TLC model checking of the contract; TLC-generated conflict histories replayed on the real engine; TLC trace validation"),
+ "C03": dict(ready=False, engine="sys", design_ref="DESIGN.md 6 (C03), 13",
+   text=SYS + "C03: one-sided histories, both directions: OriginUntouched after every engine step, AsExpected + NoArtefacts at quiet (expected tree computed by the "
+        "specification from the history), NoEcho / StaysQuiet over three after-quiet rounds, Productive (no redundant transfer).",
+   note=TRUST_SYS, technique="TLA+ spec + TLC: generated one-sided behaviours replayed on the real engine; TLC trace validation against the specification's expected tree"),
+ "C04": dict(ready=False, engine="sys", design_ref="DESIGN.md 6 (C04), 13",
+   text=SYS + "C04: two-sided histories with disjoint footprints (FootprintsDisjoint + every operation applies on the single expected tree, both in Sys.tla): "
+        "AsExpected (base + both sides' changes, deletes stay deleted, renames only at the new path), NoArtefacts.",
+   note=TRUST_SYS, technique="TLA+ spec + TLC: generated disjoint two-sided behaviours replayed on the real engine; TLC trace validation of the three-way-merge law"),
+ "C05": dict(ready=True, engine="sys", design_ref="DESIGN.md 6 (C05), 13",
+   text=SYS + "C05: the finite product of Gen_Conflict.tla (shape x content pair x 9 resolver behaviours x first side x intake tokens x post-conflict schedules): "
+        "resolver called once iff contents differ, handles truthful, exact outcome table at quiet, loser kept iff keep - identical for every schedule.",
+   note=TRUST_SYS, technique="TLA+ enumeration of the conflict family + TLC trace validation of the resolver contract on the real engine"),
+ "C06": dict(ready=False, engine="sys", design_ref="DESIGN.md 6 (C06), 13",
+   text=SYS + "C06: histories with a stop at a step boundary (after an operation, after intake, mid-sync), operations while down, restart over the same storage with "
+        "intact / removed / rejected cursors: AsExpected (covering form after a walk), NoArtefacts, Productive (nothing re-transferred).",
+   note=TRUST_SYS + " Restart = done() + new CloudSync over the same storage object (MockStorage fixture) and provider objects.",
+   technique="TLA+ spec + TLC: generated stop/offline/restart behaviours replayed on the real engine; TLC trace validation", category="fault_enumeration"),
+ "C07": dict(ready=True, engine="sys", design_ref="DESIGN.md 6 (C07), 13",
+   text=SYS + "C07: for every base behaviour, one run per crash instant - before each storage write and after each effective provider write of the golden run - "
+        "then a new engine over whatever exists: Converged, NoLoss, LastCopy, and NoArtefacts for one-sided histories.",
+   note=TRUST_SYS + " Crash = BaseException at the instrumented call, engine abandoned.", technique="crash-point enumeration over TLC-generated behaviours; TLC trace validation",
+   category="fault_enumeration"),
+ "C08": dict(ready=True, engine="state", design_ref="DESIGN.md 3.4, 6 (C08), 13",
+   text="StateInv.tla (PersistExact, ReloadSame) evaluated by TLC on the decoded storage rows and the projected live entries after EVERY engine step of TLC-generated "
+        "system histories (incl. stop/restart) and after every call of the state-level event-tuple family; Codec.tla enumerates the full shape-class product of the "
+        "serialised fields and legacy rows, round-tripped through the real SyncEntry and judged by Trace_Codec.tla.",
+   note=TRUST + "rows decoded with msgpack as SyncEntry.deserialize does; table read through SyncState's private indexes; one representative value per codec shape class.",
+   technique="TLA+ invariants (StateInv.tla) evaluated by TLC on observed states of the real SyncState/storage; TLC-enumerated codec product"),
+ "C09": dict(ready=True, engine="storage", design_ref="DESIGN.md 3.3, 6 (C09)",
    text="Storage.tla is model-checked exhaustively (2 tags x 2 ids x 2 value classes: tag isolation, frame, fresh ids, "
         "idempotent delete, durable reopen). Every call history of the specification up to length 3 (quick) / 4 (thorough) and "
         "thousands of simulated histories of length 12 are executed on a real SqliteStorage file and on MockStorage; the recorded "
@@ -19,6 +63,67 @@ CHECKS = {
    note=TRUST + "byte strings represented by five classes; durability = close and reopen of the file, not power loss; thread "
         "interleavings are whatever the OS produced in this run.",
    technique="TLA+ spec (Storage.tla) + TLC model checking; TLC-generated behaviours replayed on the backends; TLC trace validation incl. linearisability search"),
+ "C10": dict(ready=False, engine="sys", design_ref="DESIGN.md 6 (C10), 13",
+   text=SYS + "C10: for every base behaviour, one run per (engine provider call index, fault kind in temporary / disconnected / token / out-of-space): FaultNotified "
+        "(matching notification before the step ends), then Converged / NoLoss / AsExpected after the faults stop.",
+   note=TRUST_SYS + " Faults are injected at engine-issued API calls only; a disconnect fault really disconnects the provider.", technique="fault enumeration over TLC-generated behaviours; TLC trace validation",
+   category="fault_enumeration"),
+ "C11": dict(ready=True, engine="state", design_ref="DESIGN.md 3.4, 6 (C11), 13",
+   text="StateInv.tla (FoundByOid, FoundByPath, NoStaleOidSlot, NoStalePathSlot, OneOwnerPerOid, PendingExact) evaluated by TLC on the observed table of the real "
+        "SyncState: after every call of every sequence of raw event tuples / discards (Gen_State.tla, exhaustive for length 2, simulated to 5-7, id-style and "
+        "path-style) and after every engine step of system histories.",
+   note=TRUST + "table read through SyncState's private indexes (_oids, _paths, _changeset_storage, _dirtyset).",
+   technique="TLA+ invariants (StateInv.tla) evaluated by TLC on observed states of the real SyncState; TLC-generated event-tuple sequences"),
+ "C12": dict(ready=False, engine="sys", design_ref="DESIGN.md 6 (C12), 13",
+   text=SYS + "C12: accounts with objects outside the roots (other folder, prefix sibling <root>X, account-root file), one-sided histories incl. moves across the boundary, "
+        "roots by path or by id, filtering on/off, a declining translate: InsideRoot on every engine call, OutsideUntouched after every step, Converged on the roots, DeclinedLeftAlone.",
+   note=TRUST_SYS, technique="TLA+ spec + TLC: generated boundary-crossing behaviours replayed on the real engine; TLC trace validation of confinement clauses"),
+ "C13": dict(ready=True, engine="paths", design_ref="DESIGN.md 3.1, 6 (C13), 13",
+   text="Paths.tla transcribes join/split/normalize_path_separators/normalize_path/is_subpath/replace_path/paths_match/dirname/basename and CloudSync.translate for all 8 "
+        "conventions and states the property's 13 laws; TLC checks the laws on the specification for small bounds; TLC enumerates every string <= 4 (thorough 5), pairs, "
+        "triples, translation inputs for all 64 convention pairs and simulated long paths; the real helpers are executed on each input and TLC (Trace_Paths) evaluates every "
+        "law on the CODE's results and compares them with the specification operators.",
+   note=TRUST + "characters represented by 8 classes; helpers on bare Provider subclasses, translate on real CloudSync objects; folder laws for absolute folders join(f).",
+   technique="TLA+ spec (Paths.tla) + TLC model checking of the laws; TLC-enumerated inputs executed on the real helpers; TLC trace validation"),
+ "C14": dict(ready=False, engine="sys", design_ref="DESIGN.md 6 (C14), 13",
+   text=SYS + "C14: every non-conflicting behaviour executed twice - prompt in-order delivery vs a mangled event stream (duplicated, replayed, walk before every intake, "
+        "per-event batches, ghost events; reversed / delayed / path-less on id-stable sides) - as one paired trace: SameQuietTrees, NoSpuriousTransfers, NoExtraConflicted.",
+   note=TRUST_SYS, technique="TLA+ spec + TLC: paired-trace validation (mangled run judged against the prompt run of the same TLC-generated behaviour)"),
+ "C15": dict(ready=True, engine="threads", design_ref="DESIGN.md 6 (C15), 13",
+   text="Real threads (cs.start()), real time, randomised switch interval: TLC-generated create-only two-sided histories with an application thread calling public methods; "
+        "every call into SyncState.updated is recorded with (thread, call site, field, lock owned); TLC (Trace_Sys) demands LockOwned for every observed site and "
+        "AsExpected / Converged / NoLoss at the end.",
+   note=TRUST + "interleavings are whatever the OS produced (sampled); private attribute writes that bypass SyncState.updated are not observed; a real-time timeout is retried sequentially.",
+   technique="TLC trace validation of lock ownership per mutation site and of the end state of threaded runs", category="exploration"),
+ "C16": dict(ready=True, engine="provider", design_ref="DESIGN.md 3.2, 6 (C16), 13",
+   text="ProviderModel.tla (reference tree: create/mkdir/upload/rename/delete with documented error classes, queries, event feed) model-checked for both id styles and case "
+        "modes; every transition of the model's tree graph up to 3 calls (thorough 4) plus simulated 10-call sequences over the full alphabet and all content size classes "
+        "executed on fresh instances of the four MockProvider flavours and of FileSystemProvider on a real temporary directory; results, observations and drained events "
+        "validated by TLC (Trace_Provider).",
+   note=TRUST + "FS case-sensitive only, events awaited with an ordered sentinel; real cloud providers cannot run offline and are out of scope.",
+   technique="TLA+ spec (ProviderModel.tla) + TLC model checking; state-graph transition coverage + simulation replayed on mock and filesystem providers; TLC trace validation"),
+ "C17": dict(ready=False, engine="sys", design_ref="DESIGN.md 6 (C17), 13",
+   text="Sched.tla: every configuration of pending entries x change times x priorities x ages enumerated by TLC, answered by the real SyncState.change(), laws "
+        "(ChosenIsEligible, LowerPriorityThenOlderFirst, ZeroAgeAllEligible) evaluated by TLC on the code's answer; system runs under the virtual clock with ageing 2/4 s "
+        "and priority tables: Aged at every effective engine write (time since the engine was last notified about that object, either side).",
+   note=TRUST_SYS, technique="TLA+ spec (Sched.tla) + TLC enumeration replayed on SyncState.change(); TLC trace validation of the ageing clause on timed system runs"),
+ "C18": dict(ready=True, engine="runnable", design_ref="DESIGN.md 3.9, 6 (C18), 13",
+   text="Runnable.tla (loop thread + controllers at shared-variable grain) model-checked exhaustively for small bounds; every do-outcome sequence x backoff triples, TLC-enumerated "
+        "gated schedules, call sequences and seeded free-running threads executed on the real Runnable; every notify/do/stop history on the real NotificationManager; recorded "
+        "traces validated by TLC (clause monitor + search for a placement of the unlogged steps).",
+   note=TRUST + "observation through overridable methods and a proxy for cloudsync.runnable.log; dyadic backoff parameters; free-run interleavings sampled.",
+   technique="TLA+ spec (Runnable.tla, Notifier.tla) + TLC model checking; TLC-generated gated schedules replayed on the real classes; TLC trace validation incl. silent-step placement search"),
+ "C19": dict(ready=True, engine="hcache", design_ref="DESIGN.md 3.9, 6 (C19), 13",
+   text="HCache.tla (reference dictionary path->[id,type,meta] with the documented eviction rules) model-checked over its whole reachable graph; TLC enumerates every "
+        "(hazard-free-reachable reference state, call) for prefixes of 2-3 calls, all sequences of length 2 and simulated sequences; each executed on a real HierarchicalCache, "
+        "all public getters and a structural walk recorded after every call and judged by TLC (Trace_HCache).",
+   note=TRUST + "the intended result in hazard cases is fixed by the reference model; MockProvider supplies path helpers; first failing line of a trace is judged.",
+   technique="TLA+ spec (HCache.tla) + TLC model checking; TLC-generated call histories with hazard tags replayed on the real cache; TLC trace validation"),
+ "C20": dict(ready=True, engine="sys", design_ref="DESIGN.md 6 (C20), 13",
+   text=SYS + "C20: Gen_Smart.tla enumerates on-demand behaviours (remote create/edit/delete, local create/edit, request by path/id, un-request, listing) with schedule tokens, "
+        "with/without an auto-sync predicate; the real SmartCloudSync methods run on the traced engine: DownloadOnlyOnDemand at every local engine write, UnrequestedStayRemote / "
+        "RequestedDownloaded / LocalFilesInSync / FoldersMirrored at quiet, UnsyncKeepsRemote / UnsyncRemovesLocal / UnsyncUploadsNewerFirst around un-requests, ListingTruth.",
+   note=TRUST_SYS, technique="TLA+ generator (Gen_Smart.tla) + TLC trace validation of the on-demand clauses on the real SmartCloudSync code"),
 }
 
 NA_REASON = "check not built yet (build in progress; see DESIGN.md section 11)"
@@ -35,6 +140,8 @@ def main():
     engines = {}
     for pid in PROPS:
         c = CHECKS.get(pid)
+        if c and not c.get("ready"):
+            c = None
         if not c:
             m["not_applicable"].append({"property_id": pid, "reason": NA_REASON})
             continue
